@@ -9,7 +9,7 @@ fn one<X: Sx>(ctx: &Ctx, idx: u64, l: usize, hdr_class: usize, msg_class: usize,
     if l <= 300 {
         history_warmup::<X>(ctx, &mut r, l);
     }
-    let (sk, pk) = keypair::<X>(&mut r);
+    let Some((sk, pk)) = keypair_monitored::<X>(ctx, &mut r, "C01:keygen-failed-for-valid-key-material") else { return };
     let hdr = match hdr_class % 6 {
         0 => Hdr::Absent,
         1 => Hdr::Empty,
